@@ -116,27 +116,26 @@ def check_conv(ctx, dn, G, m, name, make, hmodel, alt=None):
             ctx.finding("conv:presence", "known:" + key, dict(detail, note="presence equals the deviant model exactly"))
             h = hdev
     guarded(ctx, "conv:audit", audit.audit_all, ctx, dn, H, h, "conv:")
+    # attribute-less nodes of the result do not share one attribute dict
+    bare = [n for n, d in H.nodes(data=True) if not d]
+    if len(bare) >= 2:
+        try:
+            H.add_node(bare[0], probe="x")
+            others = {repr(n): dict(H.nodes(data=True))[n] for n in bare[1:]}
+            ctx.expect("conv:nodes-have-own-attr-dicts", [k for k, v in others.items() if v], [], detail)
+        finally:
+            dict(H.nodes(data=True))[bare[0]].pop("probe", None)
     # every node kept, attributes equal
     ctx.expect("conv:nodes", (len(H.nodes()), dict(H.nodes(data=True))), (len(m.nodes), m.nodes), detail)
     ctx.expect("conv:graph-attrs", dict(H.graph), dict(m.graph), detail)
     # isolation of the copy: mutate nested values on one side, the other side must not move
     sG, sH = observe.snapshot(G), observe.snapshot(H)
     for n, d in H.nodes(data=True):
-        for kk, val in d.items():
-            if isinstance(val, list):
-                val.append("mutated")
-            if isinstance(val, dict):
-                val["mutated"] = 1
-            if isinstance(val, Box):
-                val.payload.append("mutated")
+        for kk, val in list(d.items()):
+            mutate_deep(val)
         d["new-key"] = 1
-    for kk, val in H.graph.items():
-        if isinstance(val, (list,)):
-            val.append("mutated")
-        if isinstance(val, dict):
-            val["mutated"] = [1]
-        if isinstance(val, Box):
-            val.payload["mutated"] = 1
+    for kk, val in list(H.graph.items()):
+        mutate_deep(val)
     H.graph["new-key"] = 1
     ctx.expect("conv:isolation", observe.diff(sG, observe.snapshot(G)), [], dict(detail, mutated="result"))
     sH = observe.snapshot(H)
@@ -160,6 +159,23 @@ def check_conv(ctx, dn, G, m, name, make, hmodel, alt=None):
     ctx.expect("conv:isolation(structure)", observe.diff(sH, observe.snapshot(H)), [],
                dict(detail, mutated="source, by add_interaction"))
     ctx.nontrivial(m.state_key(), name)
+
+
+def mutate_deep(val):
+    """change, in place, every mutable container reachable from val (also through tuples)"""
+    if isinstance(val, list):
+        for x in val:
+            mutate_deep(x)
+        val.append("mutated")
+    elif isinstance(val, dict):
+        for x in list(val.values()):
+            mutate_deep(x)
+        val["mutated"] = 1
+    elif isinstance(val, tuple):
+        for x in val:
+            mutate_deep(x)
+    elif isinstance(val, Box):
+        mutate_deep(val.payload)
 
 
 def grow(ctx, X):
@@ -197,8 +213,9 @@ def decorate(ctx, dn, G, m):
         G.add_node(lonely, tags=["x", ["y"]], info={"a": [1]})
         m.add_node(lonely, tags=["x", ["y"]], info={"a": [1]})
         ctx.cell("src:isolated")
-    G.add_node(n0, hist=[1, 2, [3]], box=Box([1, 2]))
-    m.add_node(n0, hist=[1, 2, [3]], box=Box([1, 2]))
+    G.add_node(n0, hist=[1, 2, [3]], box=Box([1, 2]), palette=("rgb", [255, 0, 0], ({"w": 1},)))
+    m.add_node(n0, hist=[1, 2, [3]], box=Box([1, 2]), palette=("rgb", [255, 0, 0], ({"w": 1},)))
+    G.graph["gtuple"] = ("k", [1, 2])
     if rng.random() < 0.5:
         G.add_nodes_from([(n0, {7: ["non-string key"]})])
         m.nodes[n0][7] = ["non-string key"]
@@ -206,7 +223,7 @@ def decorate(ctx, dn, G, m):
     G.graph["gbox"] = Box({"k": 1})
     G.graph["meta"] = {"k": [1, 2]}
     G.graph["lst"] = [1, [2]]
-    m.graph = {"meta": {"k": [1, 2]}, "lst": [1, [2]], "gbox": Box({"k": 1})}
+    m.graph = {"meta": {"k": [1, 2]}, "lst": [1, [2]], "gbox": Box({"k": 1}), "gtuple": ("k", [1, 2])}
 
 
 def rebuild(ctx, dn, prog, directed):
